@@ -50,6 +50,13 @@ def check(run):
     bad = reccorr.check_states(run, states)
     if bad is not None:
         run.oblige("corr:Model.UrlRec get_href/get_href_size/get_components = ada::url on every state", not bad, str(bad[:2])[:900])
+    # the Lean model of ada::url's setters (Props/C03.url_setters_end_to_end, Props/C04.*_agrees) replayed on every real step
+    bad = reccorr.check_setters(run, res)
+    if bad is not None:
+        run.oblige("corr:L1 Model.UrlSetters = ada::url set_username/password/port/hash/search/pathname on every step", not bad,
+                   str(bad[:2])[:1200])
+        for b in bad[:3]:
+            run.violation("urlsetter:" + b["line"], b["what"], lines=[b["line"]], detail=b)
     for r in res[-2:]:
         run.sample(urlcorr.describe(r["case"]))
     run.oblige("L3:lockstep(url_aggregator,url)", True)
